@@ -138,6 +138,94 @@ CHECKS['C03'] = {
 }
 
 
+def _c08_worker_env(wdir):
+    import shutil
+    d = os.path.join(wdir, 'emit')
+    if not os.environ.get('_C08_EMIT_KEEP'):
+        shutil.rmtree(d, ignore_errors=True)
+    os.makedirs(d, exist_ok=True)
+    return {'VERIF_C08_EMIT': d}
+
+
+def _c08_post(runner, t, agg):
+    """Python leg: every batch the workers emitted goes through py/c08_peer.py (unmodified message.py)."""
+    import glob, json, subprocess
+    from concurrent.futures import ThreadPoolExecutor
+    d = os.path.join(t.wdir, 'emit')
+    batches = sorted(glob.glob(os.path.join(d, '*.batch')))
+    faildir = os.path.join(B.VERIF, 'replays', 'C08')
+    # regression inputs of the Python leg (fixed findings): must pass
+    for reg in sorted(glob.glob(os.path.join(B.VERIF, 'corpus', 'C08', '*.pybatch'))):
+        if _c08_replay(reg, quiet=True) != 0:
+            runner.violations.append(('c08_python', reg, 'Python peer: regression input fails again'))
+
+    def one(i_b):
+        i, b = i_b
+        out = b + '.json'
+        cmd = ['python3', os.path.join(B.VERIF, 'py', 'c08_peer.py'), b, out, '--faildir', faildir] + (['--frames', '150'] if i == 0 else [])
+        p = subprocess.run(cmd, stdout=subprocess.PIPE, stderr=subprocess.STDOUT, text=True, timeout=900)
+        try:
+            return json.load(open(out)), p.stdout[-2000:]
+        except Exception:
+            return {'records': 0, 'failures': [{'why': 'python peer crashed: ' + p.stdout[-1500:]}], 'frames_checked': 0, 'frame_failure': None}, p.stdout[-2000:]
+    res = {'records': 0, 'frames_checked': 0, 'batches': len(batches), 'records_with_non_ascii_names_or_strings': 0}
+    with ThreadPoolExecutor(max_workers=16) as ex:
+        for j, out in ex.map(one, enumerate(batches)):
+            res['records'] += j['records']
+            res['frames_checked'] += j.get('frames_checked', 0)
+            res['records_with_non_ascii_names_or_strings'] += j.get('records_with_non_ascii_names_or_strings', 0)
+            for f in j['failures'][:1]:
+                path = f.get('replay', os.path.join(faildir, 'c08_python__unsaved.pybatch'))
+                if not any(v[0] == 'c08_python' for v in runner.violations):
+                    runner.violations.append(('c08_python', path, 'Python peer: ' + f['why']))
+            ff = j.get('frame_failure')
+            if ff and ff.startswith('inconclusive'):
+                runner.inconclusive.append({'target': 'c08_python', 'what': ff})
+            elif ff:
+                runner.violations.append(('c08_python', 'py/c08_peer.py --frames', 'Python transceiver: ' + ff))
+    agg['python_peer'] = res
+    agg['evaluations'] += res['records']
+    if res['records'] < 1000 and not runner.violations:
+        runner.harness_errors.append('python peer saw only %d records' % res['records'])
+    driver_log = __import__('driver').log
+    driver_log('[C08] python peer: %d records in %d batches, %d frames over loopback TCP' % (res['records'], res['batches'], res['frames_checked']))
+
+
+def _c08_replay(path, quiet=False):
+    if not path.endswith('.pybatch'):
+        return None
+    import subprocess, tempfile
+    outj = os.path.join(tempfile.gettempdir(), 'c08_replay_%d.json' % os.getpid())
+    p = subprocess.run(['python3', os.path.join(B.VERIF, 'py', 'c08_peer.py'), path, outj], stdout=subprocess.PIPE, stderr=subprocess.STDOUT, text=True)
+    if not quiet:
+        try:
+            print(open(outj).read())
+        except Exception:
+            print(p.stdout)
+    try:
+        os.unlink(outj)
+    except OSError:
+        pass
+    return p.returncode
+
+
+CHECKS['C08'] = {
+    'level': 'exploration',
+    'technique': 'differential property testing across the four Message implementations shipped in the tree (C++, C mini, C micro, Python) plus an independent reference encoder of the documented layout: parse-walk-reserialise and build-from-model legs per implementation, 8-byte frame comparison across the C++/C gateways and the Python transceiver over loopback TCP',
+    'level_text': ('Generated-input differential search: for each model Message the C++ bytes must equal the reference encoding; mini and micro must parse them to the model content (walk through their getters), re-serialise / rebuild them to the same bytes, and the C++ parser must accept what they produce; '
+                   'the unmodified lang/python3/message.py (subprocess, batches of python-safe cases) must parse to the model content, report the exact size, re-serialise and rebuild through its Put* API to the same bytes; the gateways must emit <len LE><Enc0 LE><bytes>. Held = all implementations agreed on everything generated.'),
+    'level_note': 'Trusted: the reference encoder (models/refmsg.h). Python-safe restriction: valid UTF-8 names and strings, no NaN inside Point/Rect (Python widens float32 to double and back). C codecs: no zero-item fields (neither side can build them).',
+    'rule': ('Byte-decoded model Messages over the common repertoire (all fixed numeric types, bool, string, point, rect, raw, nested to depth 3; 7 field names incl. empty and two non-ASCII). Non-trivial: >= 3 distinct field types or nesting >= 1. Distinct: hash of the flattened bytes. '
+             'Up to 6000 python-safe cases per worker are written to batch files and verified by the Python peer; 150 of them also travel through a MessageTransceiverThread over loopback TCP.'),
+    'assumptions': ['loopback TCP available for the Python transceiver leg (reported inconclusive otherwise)'],
+    'targets': [
+        {'name': 'c08_wire', 'src': ['harness/C08_wire.cpp'], 'ccodecs': True, 'quick_n': 1500000, 'thorough_n': 15000000, 'maxlen': 500, 'min_nontrivial': 200000,
+         'worker_env': _c08_worker_env, 'post': _c08_post, 'replay_hook': _c08_replay, 'replay_aliases': ['c08_python'],
+         'class_floors': {'case_python_safe': 50000, 'case_nesting_ge_1': 20000, 'case_three_or_more_field_types': 50000, 'emitted_for_python_peer': 20000}},
+    ],
+}
+
+
 def setup():
     t0 = time.time()
     import driver
